@@ -277,7 +277,7 @@ def main():
         "seed": a.seed, "shard": a.shard, "runs_range": [lo, hi], "hash_seed": os.environ.get("PYTHONHASHSEED"),
         "fuel": fuel, "caches_discovered": sorted(pristine_sizes),
         "runs": 0, "runs_faulted": 0, "runs_faultfree": 0, "runs_shimmed": 0,
-        "steps": 0, "trivial_skipped": 0, "unsampled": 0, "marathons": 0, "saturations": 0, "max_steps_in_a_run": 0, "probes": 0, "probes_faulted": 0, "probes_faultfree": 0, "agree": 0,
+        "steps": 0, "trivial_skipped": 0, "unsampled": 0, "marathons": 0, "saturations": 0, "heavies": 0, "max_steps_in_a_run": 0, "probes": 0, "probes_faulted": 0, "probes_faultfree": 0, "agree": 0,
         "inconclusive": {}, "diverge": {}, "diverge_faulted": 0, "diverge_faultfree": 0, "diverging_runs": 0,
         "faults_armed": {}, "faults_fired": {}, "faults_swallowed": 0, "retries_ok": 0,
         "natural_failures": {}, "ops": {}, "skipped": 0, "late_drift": 0,
@@ -317,6 +317,7 @@ def main():
         out["steps"] += len(steps)
         out["marathons"] += 1 if cfg.get("marathon") else 0
         out["saturations"] += 1 if cfg.get("saturation") else 0
+        out["heavies"] += 1 if cfg.get("heavy") else 0
         out["max_steps_in_a_run"] = max(out["max_steps_in_a_run"], len(steps))
         warm = res["warm"]
         out["clock_warm"] += warm["clock"]
